@@ -2,7 +2,9 @@
 
 Histories of 1..3 invocations of the real generators (soup-app = itch/ouch/sqf, FIX, ASN.1, new_project) are run through the
 real click entry points — whole, or split at the entry point's own call of `<generator>.generate()` into the two halves of the
-generator API (`construct`: parse + generator object, `generate`), the halves of 2..3 generators interleaved in any order —,
+generator API (`construct`: parse + generator object, `generate`), the halves of 2..3 generators interleaved in any order, a
+generator also constructed on the spec object ANOTHER generator's construction parsed (`construct k on j`: one `parse()` /
+`Parser.parse()` result handed to several generators with their own app name / prefix / init flag / directory / protocol) —,
 each *process segment* of a history in its own OS process (forked from a zygote that has imported the
 library but never ran a generator), into temp directories outside /verif and /repo (removed afterwards).  After every invocation
 the whole tree is snapshotted; `open(..., 'w'|'a')` and `shutil.rmtree` are observed from outside (the worker wraps them), so each
@@ -97,37 +99,117 @@ def fix_type(n):
     return FIX_TYPE_NAMES[(n - 10) % len(FIX_TYPE_NAMES)]
 
 
-def soup_xml(spec):
-    """abstract soup-app spec {id, root: None | [[name, tok]...], uses: [name...], msgs: [msgid...]} -> XML text.
-    Everything but the field-definition table is a function of `id` (message names carry it); message ids and field names
-    overlap between specs on purpose."""
-    sid = spec['id']
-    out = ['<root>', ' <enums-root>',
-           f'  <enum id="Side{sid}" type="char_ascii"><value name="Buy" description="b">B</value>'
-           f'<value name="Sell" description="s">S</value></enum>', ' </enums-root>']
-    if spec['root'] is not None:
-        out.append(' <fielddef-root>')
-        for name, tok in spec['root']:
-            out.append(f'  <field name="f{name}" type="{SOUP_TYPES[tok]}"/>')
-        out.append(' </fielddef-root>')
-    out.append(' <records-root>')
-    out.append(f'  <record id="Rec{sid}"><fields><field name="r{sid}" type="int_4_be"/></fields></record>')
-    out.append(' </records-root>')
-    out.append(' <messages-root>')
+# ---- names that occur twice (the `dup` attribute of an abstract soup spec; absent / 0: every definition has a name of its own).
+# The parser keeps enums and records in dicts keyed by name and messages in a dict keyed by (message id, group, direction): a
+# message may be named like another message, like the enum or like the record, the record like the enum (two module-level classes
+# of one name; the later one wins in the module namespace, `__all__` lists the name once per definition, in spec order); an enum /
+# record id given twice is ONE dict entry (the later definition at the position of the first).  Every one of these specs is
+# accepted, generates and imports on the unchanged library.
+DUPS = {0: 'distinct names',
+        1: 'message 1 named like message 0', 2: 'the last message named like message 0', 3: 'the record named like the enum',
+        4: 'message 0 named like the enum', 5: 'the last message named like the enum', 6: 'message 0 named like the record',
+        7: 'the last message named like the record', 8: 'the enum id declared twice', 9: 'the record id declared twice',
+        10: 'record and last message named like the enum'}
+
+
+def soup_struct(spec):
+    """abstract soup-app spec {id, root: None | [[name, tok]...], uses: [name...], msgs: [msgid...], dup: code of DUPS} -> the four
+    sections as plain data (what `soup_xml` writes and `soup_model_sx` tells the text model):
+    {enums: [[name, type, [[member, description, value]...]]...], root: None | [[name, type]...], records: [[name, [field...]]...],
+     messages: [[name, message-id, direction, [field...]]...]}, field = {name?, def?, type?}.
+    Everything but the field-definition table is a function of `id` (names carry it); message ids and field names overlap
+    between specs on purpose."""
+    sid, dup = spec['id'], spec.get('dup', 0)
+    n = len(spec['msgs'])
+    ename, rname = f'Side{sid}', f'Rec{sid}'
+    mnames = [f'M{sid}x{k}' for k in range(n)]
+    enums = [[ename, 'char_ascii', [['Buy', 'b', 'B'], ['Sell', 's', 'S']]]]
+    if dup in (3, 10):
+        rname = ename
+    records = [[rname, [{'name': f'r{sid}', 'type': 'int_4_be'}]]]
+    if dup == 8:
+        enums.append([ename, 'char_ascii', [['Buy', 'b', 'X'], ['Hold', 'h', 'H']]])
+    if dup == 9:
+        records.append([rname, [{'name': f'q{sid}', 'type': 'int_2'}]])
+    if n:
+        if dup == 1:
+            if n >= 2:
+                mnames[1] = mnames[0]
+            else:
+                mnames[0] = rname
+        elif dup == 2:
+            if n >= 2:
+                mnames[-1] = mnames[0]
+            else:
+                mnames[0] = ename
+        elif dup == 4:
+            mnames[0] = ename
+        elif dup in (5, 10):
+            mnames[-1] = ename
+        elif dup == 6:
+            mnames[0] = rname
+        elif dup == 7:
+            mnames[-1] = rname
+    messages = []
     for k, mid in enumerate(spec['msgs']):
-        out.append(f'  <message id="M{sid}x{k}" message-id="{mid}" direction="{"incoming" if k % 2 == 0 else "outgoing"}">')
-        out.append('   <fields>')
-        out.append(f'    <field name="own{sid}" type="int_4_be"/>')
-        out.append(f'    <field name="side" type="enum:Side{sid}"/>')
+        fields = [{'name': f'own{sid}', 'type': 'int_4_be'}, {'name': 'side', 'type': f'enum:Side{sid}'}]
         if k == 0:
             for j, name in enumerate(spec['uses']):
                 # every second reference renames the field, as the documented format allows
-                out.append(f'    <field def="f{name}"/>' if j % 2 == 0 else f'    <field name="u{j}" def="f{name}"/>')
+                fields.append({'def': f'f{name}'} if j % 2 == 0 else {'name': f'u{j}', 'def': f'f{name}'})
+        messages.append([mnames[k], str(mid), 'incoming' if k % 2 == 0 else 'outgoing', fields])
+    root = None if spec['root'] is None else [[f'f{name}', SOUP_TYPES[tok]] for name, tok in spec['root']]
+    return {'enums': enums, 'root': root, 'records': records, 'messages': messages}
+
+
+def soup_xml(spec):
+    """abstract soup-app spec -> XML text (see `soup_struct`)"""
+    st = soup_struct(spec)
+
+    def fld(f):
+        return '<field ' + ' '.join(f'{k}="{f[k]}"' for k in ('name', 'def', 'type') if k in f) + '/>'
+    out = ['<root>', ' <enums-root>']
+    for name, ty, vals in st['enums']:
+        out.append(f'  <enum id="{name}" type="{ty}">'
+                   + ''.join(f'<value name="{m}" description="{d}">{v}</value>' for m, d, v in vals) + '</enum>')
+    out.append(' </enums-root>')
+    if st['root'] is not None:
+        out.append(' <fielddef-root>')
+        for name, ty in st['root']:
+            out.append(f'  <field name="{name}" type="{ty}"/>')
+        out.append(' </fielddef-root>')
+    out.append(' <records-root>')
+    for name, fields in st['records']:
+        out.append(f'  <record id="{name}"><fields>' + ''.join(fld(f) for f in fields) + '</fields></record>')
+    out.append(' </records-root>')
+    out.append(' <messages-root>')
+    for name, mid, direction, fields in st['messages']:
+        out.append(f'  <message id="{name}" message-id="{mid}" direction="{direction}">')
+        out.append('   <fields>')
+        for f in fields:
+            out.append('    ' + fld(f))
         out.append('   </fields>')
         out.append('  </message>')
     out.append(' </messages-root>')
     out.append('</root>')
     return '\n'.join(out) + '\n'
+
+
+def soup_model_sx(spec):
+    """the same spec in the request syntax of the text model of the soup-app generator (Model/GenSoupApp.lean, the C15 model;
+    driver op `gen.exports`):  (spec (ENUM*) (FIELD*) (REC*) (MSG*)), absent attribute = none"""
+    st = soup_struct(spec)
+
+    def o(x):
+        return 'none' if x is None else cps(x)
+
+    def fld(f):
+        return ['f', o(f.get('name')), o(f.get('def')), o(f.get('type')), 'none', 'none', 'none', 'none', 'none']
+    return ['spec',
+            [['enum', cps(n), o(t), [[cps(m), cps(v)] for m, _d, v in vals]] for n, t, vals in st['enums']],
+            [fld({'name': n, 'type': t}) for n, t in (st['root'] or [])],
+            [['rec', cps(n), [fld(f) for f in fields]] for n, fields in st['records']],
+            [['msg', cps(n), cps(mid), 'none', cps(d), [fld(f) for f in fields]] for n, mid, d, fields in st['messages']]]
 
 
 def fix_xml(spec):
@@ -230,7 +312,10 @@ def ev_sx(ev):
     if ev.get('phase') == 'generate':
         return ['generate', ev['gid']]
     if ev.get('phase') == 'construct':
-        return ['construct', ev['gid'], ev_sx({k: v for k, v in ev.items() if k not in ('phase', 'gid')})]
+        inner = ev_sx({k: v for k, v in ev.items() if k not in ('phase', 'gid', 'on')})
+        if ev.get('on') is not None:      # constructed on the object that was parsed for generator `on` (driver op gen.reuse)
+            return ['construct', ev['gid'], ['on', ev['on']], inner]
+        return ['construct', ev['gid'], inner]
     opts = [cps(ev['app']), cps(ev['prefix']), bool(ev['init']), dir_sx(ev['dir'])]
     s = ev['spec']
     if g == 'soup':
@@ -265,8 +350,10 @@ def sx_ev(t):
     if g == 'edit':
         return {'gen': 'useredit', 'dir': sx_dir(t[1]), 'fname': _txt(t[2]), 'n': int(t[3])}
     if g == 'construct':
-        ev = sx_ev(t[2])
+        ev = sx_ev(t[-1])
         ev.update(phase='construct', gid=int(t[1]), spec_file=f'specg{int(t[1])}')
+        if len(t) == 4:                   # (construct k (on j) <invocation>)
+            ev['on'] = int(t[2][1])
         return ev
     if g == 'generate':
         return {'gen': 'generate', 'phase': 'generate', 'gid': int(t[1])}      # completed by `link_phases`
@@ -304,7 +391,7 @@ def ev_step(ev):
         return {'gen': g, 'path': p, 'text': user_text(p, ev['n'])}
     st = {'gen': g, 'app': ev['app'], 'prefix': ev['prefix'], 'init': ev['init'], 'dir': dir_rel(ev['dir']),
           'spec_file': ev.get('spec_file', 'spec'), 'pkg': list(dir_pkg(ev['dir'])), 'fault': ev.get('fault'),
-          'phase': ev.get('phase'), 'gid': ev.get('gid')}
+          'phase': ev.get('phase'), 'gid': ev.get('gid'), 'on': ev.get('on')}
     if g == 'soup':
         st.update(impl=ev['impl'], xml=soup_xml(ev['spec']), override=ev.get('override'))
     elif g == 'fix':
@@ -475,12 +562,18 @@ def run_steps(req):
                 log.append(['open', st['path'], 'w'])
             else:
                 raise RuntimeError('unknown generator ' + g)
+            if cmd is not None and phase == 'construct' and st.get('on') is not None and st['on'] not in objects:
+                outcome, cmd = 'na-noobject', None       # the generator whose parsed spec is to be used was never constructed
             if cmd is not None:
-                captured, undo = [], []
+                captured, undo, undo_parse = [], [], []
                 if phase == 'construct':
                     # first half of the generator API: the real entry point runs (parse, construct the generator object) up to its
                     # call of `<generator>.generate(...)`, which is recorded instead of executed
                     undo = _intercept_generate(captured)
+                    if st.get('on') is not None:
+                        # …on a spec that is ALREADY PARSED: the entry point's parse step hands out the very object generator
+                        # `on` was constructed from (`definitions = parse(...)` once, several `Generator(definitions, …)`)
+                        undo_parse = _reuse_parsed(objects[st['on']][1].definitions)
                 builtins.open, shutil.rmtree = spy_open, spy_rmtree
                 so, sys.stdout = sys.stdout, devnull
                 try:
@@ -490,6 +583,8 @@ def run_steps(req):
                     builtins.open, shutil.rmtree = real_open, real_rmtree
                     for cls, orig in undo:
                         cls.generate = orig
+                    for holder, name, orig in undo_parse:
+                        setattr(holder, name, orig)
                 if phase == 'construct':
                     if len(captured) == 1:
                         objects[st['gid']] = captured[0]
@@ -531,6 +626,17 @@ def _intercept_generate(captured):
     return undo
 
 
+def _reuse_parsed(definitions):
+    """replaces the parse step of the soup-app and FIX entry points (`Parser.parse`, `fix.codegen.parse`) by "the object that was
+    parsed earlier"; returns [(holder, attribute, original)] for undoing it"""
+    from nasdaq_protocols.common.message import parser as mparser
+    from nasdaq_protocols.fix import codegen as fcg
+    undo = [(mparser.Parser, 'parse', mparser.Parser.__dict__['parse']), (fcg, 'parse', fcg.parse)]
+    mparser.Parser.parse = staticmethod(lambda *a, **kw: definitions)
+    fcg.parse = lambda *a, **kw: definitions
+    return undo
+
+
 def _config_check(root):
     """does the project still build: pyproject.toml is TOML, tox.ini is an ini file"""
     import configparser
@@ -567,21 +673,30 @@ def zygote_main():
 
 
 # ------------------------------------------------------------------------------------------------ harness side: process pool
+# "in one process or in separate ones": every process segment of a history runs in a child forked from a zygote INTERPRETER, and the
+# zygotes are started with different, fixed `PYTHONHASHSEED`s (str hashing — hence the iteration order of every set of names — is
+# per interpreter): class j of HASH_SEEDS.  The segments of a history take the classes 1, 2, 3, 0, 1 … in turn; the fresh single run
+# every invocation is compared with runs in class 0, and is REPEATED in every other class (`evaluate`: the four trees must be equal
+# byte for byte).  'random' is what an interpreter does when nobody sets the variable.
+HASH_SEEDS = ['0', '1', '2', 'random']
+
+
 class Pool:
     def __init__(self, repo, n):
         self.repo = repo
-        self.free = []
+        self.free = {j: [] for j in range(len(HASH_SEEDS))}
         self.lock = threading.Lock()
         self.all = []
         self.n = n
         self.exec = ThreadPoolExecutor(max_workers=n)
 
-    def _get(self):
+    def _get(self, hs):
         with self.lock:
-            if self.free:
-                return self.free.pop()
+            if self.free[hs]:
+                return self.free[hs].pop()
+        env = dict(os.environ, PYTHONHASHSEED=HASH_SEEDS[hs])
         p = subprocess.Popen([PY, '-W', 'ignore', HERE, '--zygote', self.repo], stdin=subprocess.PIPE, stdout=subprocess.PIPE,
-                             stderr=subprocess.DEVNULL, text=True)
+                             stderr=subprocess.DEVNULL, text=True, env=env)
         first = p.stdout.readline().strip()
         if first != 'ready':
             raise RuntimeError('zygote failed to start (cannot import the library?): ' + first)
@@ -589,8 +704,9 @@ class Pool:
             self.all.append(p)
         return p
 
-    def segment(self, base, steps):
-        p = self._get()
+    def segment(self, base, steps, hs=0):
+        hs %= len(HASH_SEEDS)
+        p = self._get(hs)
         watchdog = threading.Timer(300, p.kill)      # a generator that hangs is an infrastructure error (exit 2), not a verdict
         watchdog.start()
         try:
@@ -602,7 +718,7 @@ class Pool:
         if not line:
             raise RuntimeError('generator worker died or timed out')
         with self.lock:
-            self.free.append(p)
+            self.free[hs].append(p)
         return json.loads(line)
 
     def map(self, fn, items):
@@ -618,17 +734,20 @@ class Pool:
         self.exec.shutdown(wait=False)
 
 
-def run_history(pool, events):
-    """real run of a history; returns the list of per-event results ('newproc' or the worker's dict), temp dir removed"""
+def run_history(pool, events, hs0=1):
+    """real run of a history; returns the list of per-event results ('newproc' or the worker's dict), temp dir removed.
+    The k-th process segment runs in an interpreter of hash-seed class hs0 + k."""
     base = tempfile.mkdtemp(prefix='c17-')
     try:
         out, seg = [], []
+        nseg = [0]
 
         def flush():
             if seg:
-                res = pool.segment(base, [ev_step(e) for e in seg])
+                res = pool.segment(base, [ev_step(e) for e in seg], hs0 + nseg[0])
                 out.extend(res)
                 del seg[:]
+                nseg[0] += 1
         for ev in events:
             if ev['gen'] == 'newproc':
                 flush()
@@ -767,7 +886,7 @@ def model_structure(case, ans, fresh_ans):
 def fresh_event(ev):
     """the invocation alone: own process, own (empty) tree, the same relative directory and options"""
     e = copy.deepcopy(ev)
-    for k in ('spec_file', 'fault', 'phase', 'gid'):
+    for k in ('spec_file', 'fault', 'phase', 'gid', 'on'):
         e.pop(k, None)
     return e
 
@@ -781,6 +900,54 @@ def same_target(a, b):
     if a['gen'] == 'asn1':
         return b['gen'] == 'asn1' and a['dir'] == b['dir']
     return all(a.get(k) == b.get(k) for k in keys)
+
+
+def fresh_run(pool, ev, hs=0):
+    """the invocation alone: empty tree, own process — an interpreter of hash-seed class `hs`"""
+    e = dict(ev)
+    e['spec_file'] = 'spec'
+    pre = []
+    if e['dir'][0] == 'app':    # an application directory lives in a project: its package path needs the project tree
+        pre = [{'gen': 'newproj', 't': e['dir'][1], 'name': e['dir'][2], 'apps': [[e['dir'][3], 'ouch']]}, dict(NEWPROC)]
+    return run_history(pool, pre + [e], hs - (1 if pre else 0))[-1]
+
+
+def process_diffs(ref, alt):
+    """"generating the same spec twice in separate processes gives identical files": what differs between two fresh single runs of
+    ONE invocation made by two interpreters (outcome, import outcome, the whole tree byte for byte); [] when nothing does"""
+    what = []
+    if alt['outcome'] != ref['outcome']:
+        what.append(f'outcome {ref["outcome"]} / {alt["outcome"]}')
+    if alt['import'] != ref['import']:
+        what.append(f'import of the package {ref["import"]} / {alt["import"]}')
+    for f in sorted(set(ref['snap']) | set(alt['snap'])):
+        a, b = ref['snap'].get(f), alt['snap'].get(f)
+        if a == b:
+            continue
+        if a is None or b is None:
+            what.append(f'{f}: {"missing" if a is None else "written"} / {"missing" if b is None else "written"}')
+            continue
+        la, lb = a.splitlines(), b.splitlines()
+        i = next((i for i, (x, y) in enumerate(zip(la, lb)) if x != y), min(len(la), len(lb)))
+        what.append(f'{f} line {i + 1}: {(la[i] if i < len(la) else "<end of file>")[:60]!r} / '
+                    f'{(lb[i] if i < len(lb) else "<end of file>")[:60]!r}')
+    return what
+
+
+def module_all(text):
+    """the `__all__` list of a generated module (None: the text is not python / has none)"""
+    import ast
+    try:
+        for node in ast.parse(text).body:
+            if isinstance(node, ast.Assign) and any(isinstance(t, ast.Name) and t.id == '__all__' for t in node.targets):
+                return list(ast.literal_eval(node.value))
+    except Exception:  # noqa
+        return None
+    return None
+
+
+def soup_module_path(ev):
+    return os.path.join(dir_rel(ev['dir']), (ev['prefix'] + '_' if ev['prefix'] else '') + f'{ev["impl"]}_{ev["app"]}.py')
 
 
 def oracle(case, real, fresh_real):
@@ -805,7 +972,9 @@ def oracle(case, real, fresh_real):
             # generator API, first half (parse + construct the generator object): the only thing the property says about it alone
             # is its outcome — a construction that fails must fail exactly as the whole invocation fails when it runs alone
             fr = fresh_real[fresh_key(ev)]
-            if res['outcome'] != 'ok' and res['outcome'] != fr['outcome']:
+            if res['outcome'] == 'na-noobject':
+                pass        # (on a parsed spec whose own construction failed: judged there)
+            elif res['outcome'] != 'ok' and res['outcome'] != fr['outcome']:
                 bad.append((f'constructing the generator: {res["outcome"]}, but the same invocation alone gives {fr["outcome"]}', 'other', k))
             prev_snap = snap
             continue
@@ -872,7 +1041,8 @@ def oracle(case, real, fresh_real):
                             kinds.add('other')
             if phase and kinds:
                 kinds = {'other'}     # (the labels above are about whole invocations; a fresh process cannot be given to generate() alone)
-                what.insert(0, f'generate() of generator {ev["gid"]} (constructed at step {own[-1] if own else "?"})')
+                what.insert(0, f'generate() of generator {ev["gid"]} (constructed at step {own[-1] if own else "?"}'
+                            + (f' on the spec object parsed for generator {ev["on"]}' if ev.get('on') is not None else '') + ')')
             for kind in sorted(kinds):
                 bad.append(('; '.join(what)[:400], kind, k))
         elif g == 'newproj' and res['outcome'] == 'ok':
@@ -941,27 +1111,35 @@ class SpecFactory:
             while len(msgs) < at:
                 msgs.append(rng.choice([69, 70]))
             msgs.insert(at, msgs[j])
-        return self._soup(root, uses, msgs)
+        # a name that occurs twice among the enum / record / message definitions (see DUPS)
+        dup = rng.randint(1, len(DUPS) - 1) if rng.random() < 0.3 else 0
+        return self._soup(root, uses, msgs, dup)
 
-    def _soup(self, root, uses, msgs):
-        key = (tuple(uses), tuple(msgs))
+    def _soup(self, root, uses, msgs, dup=0):
+        key = (tuple(uses), tuple(msgs), dup)
         sid = self.soup_ids.setdefault(key, len(self.soup_ids) + 1)
-        return {'id': sid, 'root': root, 'uses': list(uses), 'msgs': list(msgs)}
+        out = {'id': sid, 'root': root, 'uses': list(uses), 'msgs': list(msgs)}
+        if dup:
+            out['dup'] = dup
+        return out
 
     def soup_edit(self, s):
         """the user edits the XML: another field-definition table, another message list, or both"""
         rng = self.rng
-        c = rng.randrange(4)
-        root, uses, msgs = copy.deepcopy(s['root']), list(s['uses']), list(s['msgs'])
+        c = rng.randrange(5)
+        root, uses, msgs, dup = copy.deepcopy(s['root']), list(s['uses']), list(s['msgs']), s.get('dup', 0)
         if c == 0 and root:
             root = [[n, rng.randrange(len(SOUP_TYPES))] for n, _ in root]
         elif c == 1:
             msgs = msgs + [rng.choice([69, 70])]
         elif c == 2:
             root = None if root is not None else [[n, rng.randrange(len(SOUP_TYPES))] for n in sorted(set(uses)) or [1]]
+        elif c == 3:
+            # a definition is renamed: to the name of another definition, or back to a name of its own
+            dup = rng.choice([d for d in DUPS if d != dup]) if dup == 0 or rng.random() < 0.6 else 0
         else:
             return self.soup()
-        return self._soup(root, uses, msgs)
+        return self._soup(root, uses, msgs, dup)
 
     def tree(self, depth):
         rng = self.rng
@@ -1147,6 +1325,72 @@ def gen_phases(rng, sf):
     return evs
 
 
+def options_changed(rng, ev):
+    """the same (parsed) spec with 0..3 of the construction-time options changed: app name, prefix, init flag, and for the
+    soup-app generators the protocol entry point (parse-time options — `--fix-version`, `--override-messages` — stay)"""
+    e = copy.deepcopy(ev)
+    opts = ['app', 'prefix', 'init'] + (['impl'] if e['gen'] == 'soup' else [])
+    for o in rng.sample(opts, rng.choice([0, 1, 1, 2, 3])):
+        if o == 'app':
+            e['app'] = rng.choice([a for a in APPS if a != ev['app']])
+        elif o == 'prefix':
+            e['prefix'] = rng.choice([x for x in ('', 'p', 'q') if x != ev['prefix']])
+        elif o == 'init':
+            e['init'] = not ev['init']
+        else:
+            e['impl'] = rng.choice([x for x in IMPLS if x != ev['impl']])
+    return e
+
+
+def gen_reuse(rng, sf):
+    """ONE parsed spec object handed to several generators (`definitions = parse(...)` once, `Generator(definitions, …)` several
+    times): a lender (`construct`: the entry point up to its call of generate() — parse + generator object), 1..2 borrowers
+    (`construct k on lender`: the entry point again, its parse step handing out the lender's object; own app name / prefix /
+    init flag / directory / soup-app protocol — or the very same target), sometimes one more generator of another spec; every
+    generator writes 0, 1 or 2 times; the steps interleaved in any order in which a borrower is constructed after its lender —
+    before or after the lender (or another borrower) wrote; all in one process"""
+    kind = rng.choice(['fix', 'fix', 'fix', 'soup', 'soup'])
+    lender = gen_invocation(rng, sf, kind, ['out', 1])
+    if kind == 'fix' and not lender['spec']['groups'] and rng.random() < 0.7:
+        # (mostly dictionaries with repeating groups: the part of a parsed dictionary with codegen state of its own)
+        lender['spec'] = sf.fix(groups=[sf.tree(rng.choice(DEPTHS)) for _ in range(rng.choice([1, 1, 2]))],
+                                version=rng.choice([44, 44, 50, 502]))
+    gens, on = [lender], {}
+    for _ in range(rng.choice([1, 1, 2])):
+        d = ['out', len(gens) + 1] if rng.random() < 0.8 else ['out', 1]
+        on[len(gens)] = 0
+        gens.append(retarget(options_changed(rng, lender), d))
+    if rng.random() < 0.45:
+        k = rng.choice(['soup', 'fix', 'fix', 'asn1']) if rng.random() < 0.3 else kind
+        c = rng.random()
+        other = gen_invocation(rng, sf, k, ['out', len(gens) + 1])
+        if k == kind and c < 0.5:
+            other = retarget(edit_spec(rng, sf, lender) if c < 0.25 else copy.deepcopy(lender), ['out', len(gens) + 1])
+        gens.append(other)
+    seqs = []
+    for gid, inv in enumerate(gens):
+        inv['spec_file'] = f'specg{gid}'
+        c = rng.random()
+        if gid == 0 or gid in on:
+            seqs.append(['construct', 'generate'] if c < 0.8 else ['construct', 'generate', 'generate'] if c < 0.92 else ['construct'])
+        else:
+            seqs.append(['full'] if c < 0.4 else ['construct', 'generate'])
+    if all(len(seqs[g]) < 2 for g in on):
+        seqs[min(on)] = ['construct', 'generate']
+    evs, pos = [], [0] * len(gens)
+    while any(pos[g] < len(seqs[g]) for g in range(len(gens))):
+        g = rng.choice([x for x in range(len(gens)) if pos[x] < len(seqs[x]) and (x not in on or pos[x] > 0 or pos[on[x]] > 0)])
+        op = seqs[g][pos[g]]
+        pos[g] += 1
+        e = copy.deepcopy(gens[g])
+        if op != 'full':
+            e.update(phase=op, gid=g)
+            if op == 'construct' and g in on:
+                e['on'] = on[g]
+        evs.append(e)
+    return evs
+
+
 def other_target(rng, ev):
     e = copy.deepcopy(ev)
     c = rng.randrange(3)
@@ -1169,12 +1413,14 @@ def gen_history(rng):
     shape = rng.choice(['single', 'regen', 'regen', 'two-dirs', 'two-dirs', 'edit-rebuild', 'edit-rebuild', 'b-after-a',
                         'b-after-a', 'b-after-a', 'retarget-same-dir', 'mixed3', 'mixed3', 'project', 'project', 'project-gen',
                         'b-after-failed-a', 'b-after-failed-a', 'option-change', 'option-change', 'option-change',
-                        'phases', 'phases', 'phases', 'phases'])
+                        'phases', 'phases', 'phases', 'phases', 'parsed-reuse', 'parsed-reuse', 'parsed-reuse'])
     kind = rng.choice(['soup', 'soup', 'soup', 'fix', 'fix', 'fix', 'asn1'])
     d1, d2, d3 = ['out', 1], ['out', 2], ['out', 3]
     a = gen_invocation(rng, sf, kind, d1)
     if shape == 'phases':
         return gen_phases(rng, sf), shape
+    if shape == 'parsed-reuse':
+        return gen_reuse(rng, sf), shape
     if shape == 'single':
         evs = [a]
     elif shape == 'option-change':
@@ -1282,10 +1528,38 @@ def witness_histories(ctx):
                     assert sx_ev(parse_sx(sx(ev_sx(e)))[0]) == e, e
             hs = [(link_phases(evs), l) for evs, l in hs]
             ctx.notes.append(f'{len(hs)} witness histories taken from Witness/C17.lean through the driver')
-            return hs + extra
+            return hs + extra + reuse_witnesses(ctx)
         except Exception as e:  # noqa
             ctx.notes.append(f'witness histories: driver answer unusable ({type(e).__name__}), using the built-in copies')
-    return builtin_histories()
+    return builtin_histories() + reuse_witnesses(ctx)
+
+
+def reuse_witnesses(ctx):
+    """the histories of Witness/C17Reuse.lean (one parsed spec object, several generators), printed by the model driver from the
+    Lean definitions (`witness C17Reuse`); when the driver is unavailable, hand-written copies of two of them"""
+    if ctx.driver.available:
+        try:
+            t = parse_sx(ctx.driver.ask(['witness C17Reuse'])[0])
+            hs = [([sx_ev(e) for e in h[1:]], h[0]) for h in t]
+            for evs, _l in hs:
+                for e in evs:
+                    assert sx_ev(parse_sx(sx(ev_sx(e)))[0]) == e, e
+            ctx.notes.append(f'{len(hs)} witness histories taken from Witness/C17Reuse.lean through the driver')
+            return [(link_phases(evs), l) for evs, l in hs]
+        except Exception as e:  # noqa
+            ctx.notes.append(f'reuse witness histories: driver answer unusable ({type(e).__name__}), using the built-in copies')
+    d1, d2 = ['out', 1], ['out', 2]
+    FA = {'id': 1, 'version': 44, 'fields': [1, 2], 'msgfields': [1], 'groups': [[1, [2], [[2, [1], []]]]], 'counts': [1, 2]}
+    SA = {'id': 1, 'root': [[1, 0], [2, 1]], 'uses': [1, 2], 'msgs': [65, 66]}
+    fg = {'gen': 'fix', 'spec': FA, 'app': 'g', 'prefix': '', 'init': True, 'dir': d1, 'spec_file': 'specg0', 'phase': 'construct', 'gid': 0}
+    fh = dict(copy.deepcopy(fg), app='h', dir=d2, spec_file='specg1', gid=1, on=0)
+    sg = {'gen': 'soup', 'impl': 'ouch', 'spec': SA, 'app': 'g', 'prefix': '', 'init': True, 'dir': d1, 'spec_file': 'specg0',
+          'phase': 'construct', 'gid': 0}
+    sh = dict(copy.deepcopy(sg), impl='itch', app='s', prefix='p', init=False, dir=d2, spec_file='specg1', gid=1, on=0)
+    gen = lambda k: {'gen': 'generate', 'phase': 'generate', 'gid': k}      # noqa: E731
+    return [(link_phases([fg, gen(0), fh, gen(1)]), 'witness-reuse-one-after-the-other'),
+            (link_phases([fg, fh, gen(1), gen(0)]), 'witness-reuse-prepare-then-write'),
+            (link_phases([sg, gen(0), sh, gen(1), gen(0)]), 'witness-reuse-soup')]
 
 
 def builtin_histories():
@@ -1327,15 +1601,27 @@ def evaluate(ctx, pool, cases, label_of):
                 fresh_evs.setdefault(fresh_key(ev), fresh_event(ev))
     keys = list(fresh_evs)
 
-    def do_fresh(k):
-        ev = dict(fresh_evs[k])
-        ev['spec_file'] = 'spec'
-        pre = []
-        if ev['dir'][0] == 'app':    # an application directory lives in a project: its package path needs the project tree
-            pre = [{'gen': 'newproj', 't': ev['dir'][1], 'name': ev['dir'][2], 'apps': [[ev['dir'][3], 'ouch']]}, dict(NEWPROC)]
-        r = run_history(pool, pre + [ev])
-        return r[-1]
-    fresh_real = dict(zip(keys, pool.map(do_fresh, keys)))
+    first_case = {}
+    for ci, case in enumerate(cases):
+        for ev in case:
+            if ev['gen'] in ('soup', 'fix', 'asn1'):
+                first_case.setdefault(fresh_key(ev), ci)
+    fresh_real = dict(zip(keys, pool.map(lambda k: fresh_run(pool, fresh_evs[k], 0), keys)))
+    # ---- "in separate processes": the same fresh single run by the interpreters of every other hash-seed class
+    pairs = [(k, j) for k in keys for j in range(1, len(HASH_SEEDS))]
+    diffs = pool.map(lambda kj: process_diffs(fresh_real[kj[0]], fresh_run(pool, fresh_evs[kj[0]], kj[1])), pairs)
+    seen = set()
+    for (k, j), what in zip(pairs, diffs):
+        ctx.count('fresh-run-repeated-in-another-interpreter')
+        if what and k not in seen:
+            seen.add(k)
+            ctx.count('oracle:process-dependent')
+            if len([1 for _w, r in ctx.violations if r.get('kind') == 'process-dependent']) < 3:
+                ev = fresh_evs[k]
+                report(ctx, f'{label_of(first_case[k])}: the same {ev["gen"]} invocation alone, into an empty directory, by two separate '
+                            f'interpreters (PYTHONHASHSEED={HASH_SEEDS[0]} / {HASH_SEEDS[j]}) gives different results: ' + '; '.join(what)[:400],
+                       {'kind': 'process-dependent', 'history': [dict(ev, spec_file='spec')], 'step': 0, 'label': label_of(first_case[k]),
+                        'hash_seeds': [HASH_SEEDS[0], HASH_SEEDS[j]]})
     real = pool.map(lambda c: run_history(pool, c), cases)
     # ---- the model, one batch
     fresh_ans, ans = {}, [None] * len(cases)
@@ -1347,10 +1633,17 @@ def evaluate(ctx, pool, cases, label_of):
         lines = [f'gen.hist {SEM} ' + ' '.join(pre_sx(fresh_evs[k]) + [sx(ev_sx(fresh_evs[k]))]) for k in keys]
         modelled = [ci for ci, c in enumerate(cases) if not any(e.get('fault') is not None for e in c)]
         lines += [f'gen.hist {SEM} ' + ' '.join(sx(ev_sx(e)) for e in cases[ci]) for ci in modelled]
+        # the text model of the soup-app generator (Model/GenSoupApp.lean; Props/C17Names.lean): `__all__` of the module a fresh
+        # single run writes, name by name in the model's order
+        soup_keys = [k for k in keys if fresh_evs[k]['gen'] == 'soup']
+        lines += [f'gen.exports {fresh_evs[k]["impl"]} {sx(cps(fresh_evs[k]["app"]))} '
+                  f'{sx(fresh_evs[k].get("override") is not False)} {sx(soup_model_sx(fresh_evs[k]["spec"]))}' for k in soup_keys]
         out = ctx.driver.ask(lines)
         fresh_ans = dict(zip(keys, out[:len(keys)]))
         for ci, a in zip(modelled, out[len(keys):]):
             ans[ci] = a
+        for k, a in zip(soup_keys, out[len(keys) + len(modelled):]):
+            compare_exports(ctx, fresh_evs[k], fresh_real[k], a, label_of(first_case[k]))
     for ci, (case, rl) in enumerate(zip(cases, real)):
         label = label_of(ci)
         rep_case = {'history': case, 'label': label}
@@ -1362,7 +1655,7 @@ def evaluate(ctx, pool, cases, label_of):
             if e['gen'] != 'newproc':
                 ctx.count('gen:' + e['gen'])
                 if e.get('phase'):
-                    ctx.count('phase:' + e['phase'])
+                    ctx.count('phase:' + e['phase'] + ('-on-parsed' if e.get('on') is not None and e['phase'] == 'construct' else ''))
         for r in rl:
             if r != 'newproc':
                 ctx.count('outcome:' + norm_outcome(r['outcome']))
@@ -1394,6 +1687,31 @@ def evaluate(ctx, pool, cases, label_of):
             except Exception as e:  # noqa
                 ctx.disagree(f'correspondence crashed on {label}: {type(e).__name__}: {e}', rep_case)
     return real, fresh_real
+
+
+def compare_exports(ctx, ev, fr, answer, label):
+    """correspondence with the text model: the fresh single run of a soup-app invocation and `gen` of Model/GenSoupApp.lean agree on
+    the outcome and on `__all__` (names and ORDER, duplicates included)"""
+    if answer == 'bad-request':
+        if not any('gen.exports' in n for n in ctx.notes):
+            ctx.notes.append('the driver does not answer gen.exports: `__all__` is not compared with the text model')
+        return
+    rep = {'kind': 'exports', 'history': [dict(ev, spec_file='spec')], 'step': 0, 'label': label}
+    t = parse_sx(answer)
+    ctx.count('exports-compared-with-the-text-model')
+    if t[0] != 'ok':
+        if fr['outcome'] == 'ok' or norm_outcome(fr['outcome']) != 'err-' + t[1]:
+            ctx.disagree(f'gen.exports ({label}): the generator alone gives {fr["outcome"]}, the text model err {t[1]}', rep)
+        return
+    if fr['outcome'] != 'ok':
+        ctx.disagree(f'gen.exports ({label}): the generator alone gives {fr["outcome"]}, the text model generates', rep)
+        return
+    got = module_all(fr['snap'].get(soup_module_path(ev), ''))
+    exp = [_txt(n) for n in t[1]]
+    if len(exp) != len(set(exp)):
+        ctx.count('exports-with-a-name-twice')
+    if got != exp:
+        ctx.disagree(f'gen.exports ({label}): __all__ of the generated module is {got}, of the text model {exp}', rep)
 
 
 def first_diff(impl, mod):
@@ -1450,7 +1768,11 @@ def run(ctx):
                        'entry point changes between invocations (--fix-version, --prefix, --app-name, --init-file, '
                        '--override-messages, --pdu-name, --package-name, --op-dir, the protocol entry point); histories at the '
                        'granularity of the generator API: construct(k) / generate(k) of 2..3 generators and whole invocations '
-                       'interleaved in any order, generate() called 0, 1 or 2 times; specs from small families with overlapping '
+                       'interleaved in any order, generate() called 0, 1 or 2 times; ONE parsed spec object (FIX `parse`, soup-app '
+                       '`Parser.parse`) handed to 2..3 generators (`construct k on j`: the entry point with its parse step handing out '
+                       'the object generator j was constructed from; own app / prefix / init flag / directory / protocol; before or '
+                       'after j wrote; another spec\'s generator in between), each output compared with the fresh process given that '
+                       'spec and those options; specs from small families with overlapping '
                        'field names, message ids (also repeated keys), group names, FIX fields of all 29 type names of '
                        'version_types.py (documented for the version or not); distinct = distinct history, '
                        'non-trivial = at least two invocations')
@@ -1504,14 +1826,7 @@ def shrink_unknown(ctx, pool):
         for ev in h:
             if ev['gen'] in ('soup', 'fix', 'asn1'):
                 keys.setdefault(fresh_key(ev), fresh_event(ev))
-        fr = {}
-        for k, ev in keys.items():
-            e = dict(ev)
-            e['spec_file'] = 'spec'
-            pre = []
-            if e['dir'][0] == 'app':
-                pre = [{'gen': 'newproj', 't': e['dir'][1], 'name': e['dir'][2], 'apps': [[e['dir'][3], 'ouch']]}, dict(NEWPROC)]
-            fr[k] = run_history(pool, pre + [e])[-1]
+        fr = {k: fresh_run(pool, ev, 0) for k, ev in keys.items()}
         rl = run_history(pool, h)
         return any(kd == kind and k == len(h) - 1 for _w, kd, k in oracle(h, rl, fr))
     try:
@@ -1547,7 +1862,8 @@ def replay(ctx, path):
             if res == 'newproc':
                 print('--- new process')
                 continue
-            what = ev['gen'] + (f' [{ev["phase"]} {ev["gid"]}]' if ev.get('phase') else '')
+            what = ev['gen'] + (f' [{ev["phase"]} {ev["gid"]}' + (f' on the spec parsed for {ev["on"]}' if ev.get('on') is not None else '')
+                                + ']' if ev.get('phase') else '')
             print(f'{what:8} -> {res["outcome"]}, import {res["import"]}, config {res["cfg"]}; files: '
                   + ', '.join(f'{p} ({len(t)} bytes)' for p, t in sorted(res['snap'].items())))
             if ev['gen'] in ('soup', 'fix', 'asn1'):
